@@ -396,6 +396,8 @@ EXTRA = [  # positions whose content needs its parentheses; nested multi-line do
     # strings spanning several lines inside decorators / defaults / bases of definitions written on one line, in an indented block
     'class K:\n    @reg("""usage:\n    prog""")\n    def run(self): pass\n\n    @reg(\'a \\\n    b\')\n    class In(B("""x\n      y""")): pass\n'
     '    def dflt(self, h="""p\n    q"""): return h',
+    # statements that end with their last element (del / import / from-import / global), multi-byte text before that end on the line
+    "del d['clé'], tmp\nimport módulo, b\nfrom módulo import a, b\ns = 'é'; del a, (b)\ndef f():\n    global gé, h; 'ü'; nonlocal_ = 1",
 ]
 PROGS8 = list(PROGRAMS) + EXTRA
 for _p in EXTRA:
